@@ -453,6 +453,24 @@ def _config_sources(ps):
 
 # ---- field_wrapper.py / parsing.py / dataclass_wrapper.py --------------------------------------------
 
+def _enum_member_passthrough(fp):
+    """parse_enum._parse_enum (the by-name converter of Optional[Enum] / List[Enum] / ... fields): does it return a value that already
+    is a member as it is?  (argparse passes a default that is a str instance through the converter; members of a str-mixin Enum are)"""
+    pe = find_def(fp, "parse_enum")
+    inner = [n for n in pe.body if isinstance(n, ast.FunctionDef) and n.name == "_parse_enum"]
+    if len(inner) != 1 or [a.arg for a in inner[0].args.args] != ["v"]:
+        raise Unrecognised("parse_enum._parse_enum")
+    body = [_norm(x) for x in clean(inner[0].body)]
+    lookups = ("return enum_type[v]",)
+    def is_lookup(t):
+        return t == "return enum_type[v]" or (t.startswith("try:\n    return enum_type[v]\nexcept KeyError:\n    raise ") and t.count("\n") == 3)
+    if len(body) == 1 and is_lookup(body[0]):
+        return False
+    if len(body) == 2 and body[0] == "if isinstance(v, enum_type):\n    return v" and is_lookup(body[1]):
+        return True
+    raise Unrecognised(f"parse_enum._parse_enum body changed: {body}")
+
+
 def _arg_type_rules(fw):
     """get_arg_options: for every arm of the annotation chain (and the final else), the `type=` / `action=` it gives the argument, in
     source order (these converters are what a str default read from a file is passed through; Model/Leaf.v's arg_options mirrors them)"""
@@ -513,11 +531,14 @@ def _field_wrapper_facts(fw):
         raise Unrecognised("get_arg_options: `self.is_enum` arm not found")
     texts = [unparse(s) for s in arm]
     base = ["assert issubclass(self.type, Enum)", "_arg_options['choices'] = list((e.name for e in self.type))", "_arg_options['type'] = str"]
-    conv = ("if self.default:\n\n    def enum_to_str(e):\n        return e.name if isinstance(e, Enum) else e\n"
-            "    if self.is_reused:\n        _arg_options['default'] = [enum_to_str(default) for default in self.default]\n"
-            "    else:\n        _arg_options['default'] = enum_to_str(self.default)")
-    if texts == base + [conv]:
+    conv_body = ("\n\n    def enum_to_str(e):\n        return e.name if isinstance(e, Enum) else e\n"
+                 "    if self.is_reused:\n        _arg_options['default'] = [enum_to_str(default) for default in self.default]\n"
+                 "    else:\n        _arg_options['default'] = enum_to_str(self.default)")
+    named_if_not_none = True
+    if texts == base + ["if self.default is not None:" + conv_body]:
         enum_as_name = True
+    elif texts == base + ["if self.default:" + conv_body]:
+        enum_as_name, named_if_not_none = True, False      # truthy members only
     elif texts == base:
         enum_as_name = False
     else:
@@ -530,7 +551,7 @@ def _field_wrapper_facts(fw):
     call = find_def(fw, "__call__", cls="FieldWrapper")
     _in_order(call, ["values = [values]", "value = self.postprocess(value)", "constructor_arguments[parent_dest][attribute] = value"],
               "FieldWrapper.__call__")
-    return enum_as_name, first_test, pp_table, dchain
+    return enum_as_name, named_if_not_none, first_test, pp_table, dchain
 
 
 def _parsing_facts(ps, dw):
@@ -567,7 +588,8 @@ def emit(repo: str) -> str:
     table = _encode_table(enc)
     exts = _extensions(ser)
     _check_save_and_read(ser)
-    enum_as_name, sentinel, pp_table, dchain = _field_wrapper_facts(fw)
+    enum_as_name, named_if_not_none, sentinel, pp_table, dchain = _field_wrapper_facts(fw)
+    passthrough = _enum_member_passthrough(parse(repo, "simple_parsing/wrappers/field_parsing.py"))
     arg_types = _arg_type_rules(fw)
     steps = _parsing_facts(ps, dw)
     wdr = _wrapper_set_default(dw)
@@ -592,14 +614,17 @@ def emit(repo: str) -> str:
         f"Definition parse_nested_mode_gen : nmode := {parse_nm}.\n"
         f"Definition parser_nested_mode_gen : nmode := {parser_nm}.\n"
         f"Definition reroot_modes_gen : list nmode := {reroot}.\n"
+        f"Definition enum_default_named_if_not_none_gen : bool := {'true' if named_if_not_none else 'false'}.\n"
+        f"Definition enum_member_passthrough_gen : bool := {'true' if passthrough else 'false'}.\n"
         "Definition wiring_gen : wiring := mkwiring postprocess_table_gen default_chain_gen wrapper_default_recorded_gen optional_guard_gen\n"
-        "  config_sources_gen parse_nested_mode_gen parser_nested_mode_gen reroot_modes_gen.\n"
+        "  config_sources_gen parse_nested_mode_gen parser_nested_mode_gen reroot_modes_gen\n"
+        "  enum_default_named_if_not_none_gen enum_member_passthrough_gen.\n"
         "(* the model instantiated with the regenerated facts *)\n"
         "Definition encode_cfg_gen := encode_cfg encode_table_gen.\n"
         "Definition to_dict_gen := to_dict encode_table_gen.\n"
         "Definition file_roundtrip_gen := file_roundtrip extensions_gen.\n"
-        "Definition as_argparse_default_gen := as_argparse_default enum_default_as_name_gen.\n"
-        "Definition argparse_default_gen := argparse_default str2bool_gen enum_miss_cls_gen.\n"
+        "Definition as_argparse_default_gen := as_argparse_default enum_default_as_name_gen wiring_gen.\n"
+        "Definition argparse_default_gen := argparse_default str2bool_gen enum_miss_cls_gen wiring_gen.\n"
         "Definition post_value_gen := post_value wiring_gen.\n"
         "Definition field_default_gen := field_default wiring_gen.\n"
         "Definition finish_default_gen := finish_default str2bool_gen enum_miss_cls_gen enum_default_as_name_gen wiring_gen.\n"
